@@ -28,6 +28,7 @@
 #include <boost/optional.hpp>
 #include <linux/futex.h>
 #include <sys/syscall.h>
+#include <sys/time.h>
 #include <unistd.h>
 #include "src/internal_config.h"
 #include "src/kernel/EngineImpl.hpp"
@@ -197,6 +198,13 @@ static Visited visited;
 static std::vector<std::string> st_samples;
 static double now() { timespec t; clock_gettime(CLOCK_MONOTONIC, &t); return t.tv_sec + t.tv_nsec * 1e-9; }
 static double t_start;
+// per-execution watchdog on the CPU time of the process (not wall time: the machine may be overloaded)
+static void watchdog(int seconds)
+{
+  itimerval t{};
+  t.it_value.tv_sec = seconds;
+  setitimer(ITIMER_PROF, &t, nullptr);
+}
 
 static std::string g_objname[px::MAXO];
 static const char* obj_name_live(int id);
@@ -280,7 +288,7 @@ static const char* phase_name()
 namespace px {
 [[noreturn]] static void fail(const char* verdict, const char* detail)
 {
-  alarm(0);
+  watchdog(0);
   if (g_replay) {
     if (g_verbose) print_trace();
     printf("VERDICT %s phase=%s outcome=%s %s\nSCHEDULE %s\n", verdict, phase_name(), outcome_string().c_str(), detail,
@@ -292,11 +300,12 @@ namespace px {
   _exit(0);
 }
 } // namespace px
+static void on_signal(int sig);
 static void on_signal(int sig)
 {
   char b[64];
-  snprintf(b, sizeof b, sig == SIGALRM ? "TIMEOUT" : "CRASH-signal-%d", sig);
-  px::fail(b, sig == SIGALRM ? "an execution did not end within 30 s of wall time" : "");
+  snprintf(b, sizeof b, sig == SIGPROF ? "TIMEOUT" : "CRASH-signal-%d", sig);
+  px::fail(b, sig == SIGPROF ? "an execution used 20 s of CPU time without ending (loop without any synchronisation operation?)" : "");
 }
 
 // ------------------------------------------------------------------ one execution of the body under a given schedule prefix
@@ -323,7 +332,7 @@ static Result run_exec(const std::vector<int8_t>& prefix)
   memset(who, -1, sizeof who);
   cnt_changed();
   phase = 0;
-  alarm(30);
+  watchdog(20);
   pm_live = true;
   new (pm_buf) Pm(g_workers, g_mode);
   capture_names();
@@ -353,6 +362,20 @@ static Result run_exec(const std::vector<int8_t>& prefix)
 }
 
 // ------------------------------------------------------------------ DFS over schedules, bounded by the number of preemptions
+// explore(prefix) runs ONE complete execution: the prefix, then the default continuation (never preempts).  Every scheduling point
+// behind the prefix is a branching point: each other enabled thread whose choice keeps the preemption count within the bound is
+// explored recursively with the extended prefix.  So every schedule with <= bound preemptions is the default continuation of
+// exactly one explored prefix: complete and without repetition.
+//
+// Pruning (g_prune).  Pt::h1/h2 hash the global state in front of a point: for each thread its status, what it is blocked on, its
+// announced operation, its spin bookkeeping and a hash of EVERYTHING IT HAS OBSERVED (the result of each of its operations and a
+// digest of the plain shared memory -- destroying, common_data, worker_fun, the counters -- at each of them: between two of its
+// operations no other thread runs, so that is all it can have read); the value of every shim object; the plain digest; who is
+// running.  Thread code is deterministic, so two prefixes that reach the same hash have the same local states and the same shared
+// state, hence the same set of continuations and verdicts.  If the state was already expanded having used no more preemptions,
+// every continuation within the bound from here was (or is being: the recursion is depth-first and histories only grow, so there is
+// no cycle) explored from there, and this execution is not expanded further.  The check re-runs a low bound without pruning in
+// every run and requires the same set of final observations.
 static bool g_prune;
 static long subtree_no = 0;
 
@@ -440,7 +463,7 @@ static void do_explore(char** a)
     st_outcomes.clear(); st_obs.clear(); visited.clear(); st_samples.clear(); subtree_no = 0;
     t_start = now();
     explore({}, 0, 0, nullptr);
-    alarm(0);
+    watchdog(0);
     if (strcmp(a[9], "-")) { // OBSFILE.b<bound>
       FILE* f = fopen((std::string(a[9]) + ".b" + std::to_string(g_bound)).c_str(), "wb");
       for (uint64_t x : st_obs) fwrite(&x, 8, 1, f);
@@ -468,14 +491,14 @@ int main(int argc, char** argv)
   int one = 1;
   char* eargv[] = {argv[0], nullptr};
   simgrid::s4u::Engine e(&one, eargv);
-  for (int s : {SIGSEGV, SIGABRT, SIGBUS, SIGFPE, SIGILL, SIGALRM}) signal(s, on_signal);
+  for (int s : {SIGSEGV, SIGABRT, SIGBUS, SIGFPE, SIGILL, SIGPROF}) signal(s, on_signal);
   t_start = now();
   if (argc >= 8 && !strcmp(argv[1], "replay")) {
     parse_config(argv + 2);
     g_replay = true;
     g_verbose = argc > 8;
     Result r = run_exec(parse_schedule(argv[7]));
-    alarm(0);
+    watchdog(0);
     if (g_verbose) print_trace();
     printf("VERDICT OK phase=end outcome=%s obs=%llx points=%zu preemptions=%d contended=%d\nSCHEDULE %s\n", outcome_string().c_str(),
            (unsigned long long)r.obs, px::pts.size(), r.preemptions, r.contended, schedule_string(px::pts, px::pts.size()).c_str());
